@@ -5,6 +5,8 @@ CONSTANTS
   Sizes = {0, 1, 3}
   Tamper = FALSE
   LenVals = {}
+  CutOffsets = {1, 2, 3}
+  CutWindow = 3
 VIEW view
 INVARIANTS TypeOK ReadBackIdentically ResponseWhereBodyExpected NoAdversaryNoStop GrammarRoundTrip
 CHECK_DEADLOCK FALSE
